@@ -203,7 +203,7 @@ func oracleSizes(r *Rng, keys []keyPair, tier string) {
 			m := genMsg(r, 3)
 			m.Compress = (w+ki)%2 == 0
 			oracleMessage(r, m, kn, nil, modeLight)
-			signAndEmit(m, kn, 2)
+			signAndEmit(m, kn, 2*b2i(ki%2 == 0 || tier == "thorough")) // the model takes ~0.2 s on a long signer name
 			st["sig_rdlength_boundaries"]++
 		}
 	}
@@ -226,7 +226,7 @@ func oracleSizes(r *Rng, keys []keyPair, tier string) {
 			}
 			m.Compress = ki%2 == 1
 			oracleMessage(r, m, kp, nil, modeLight)
-			signAndEmit(m, kp, 2)
+			signAndEmit(m, kp, 2*b2i(ki%3 == 0 || tier == "thorough")) // ~1 s each in the model (256 names in 2.8 KiB)
 		}
 	}
 	// as many records as 65535 octets can hold (ARCOUNT and the total far above 256)
